@@ -65,11 +65,11 @@ def install(world: dict) -> dict:
         gc.enable()
     lg = world.get("Lg", "none")
     root = logging.getLogger()
-    if lg == "debug":
+    if lg in ("debug", "info"):
         handler = logging.StreamHandler(_Sink())
         handler.setFormatter(logging.Formatter("%(asctime)s %(name)s %(levelname)s %(message)s"))
         root.addHandler(handler)
-        root.setLevel(logging.DEBUG)
+        root.setLevel(logging.DEBUG if lg == "debug" else logging.INFO)
     elif lg == "critical":
         logging.disable(logging.CRITICAL)
     elif lg == "untouched":
